@@ -10,11 +10,14 @@ namespace Resonate
 
 def taskStateActive (s : Nat) : Bool := s == 1 || s == 2 || s == 4
 
-/-- an `UpdateTask` as the coroutines build it: guarded on live states only, counter kept or bumped by one -/
+/-- an `UpdateTask` as the coroutines build it: guarded on live states only; either the counter is
+    bumped by one (lease expiry → back to init), or it is kept and the task does not move backwards:
+    it finishes (8/16), or it is (re)dispatched / claimed from an unclaimed state (4 ∉ guard). -/
 def wfUpdateTask (c : UpdateTaskCmd) : Bool :=
   !c.currentStates.isEmpty && c.currentStates.all taskStateActive &&
-  (c.counter == c.currentCounter || c.counter == c.currentCounter + 1) &&
-  (c.state == 1 || c.state == 2 || c.state == 4 || c.state == 8 || c.state == 16)
+  ((c.counter == c.currentCounter + 1 && c.state == 1) ||
+   (c.counter == c.currentCounter &&
+     (c.state == 8 || c.state == 16 || ((c.state == 1 || c.state == 2 || c.state == 4) && !c.currentStates.contains 4))))
 
 def wfPromiseAndTask (c : CreatePromiseAndTaskCmd) : Bool :=
   c.taskCommand.mesg.root == c.promiseCommand.id &&
